@@ -200,6 +200,37 @@ theorem stream_disk_complete_at_every_hook {α : Type} (env : Env α) (evs : Lis
   rw [hook_boundary_flushed]
   exact stream_file_complete_at_every_hook env evs fl hgood j
 
+/-- **C37 (crash consistency under any buffering — WHICH flows come back).** The exact form of
+    `crash_consistent_any_buffering` (audit round 6, R1): the surviving bytes are the first `k` records followed by nothing
+    or by a strict non-empty prefix of record `k`; loading yields EXACTLY the first `k` flows — the ones completely written
+    before the crash point — and ends cleanly iff the crash point is a record boundary, with FlowReadException otherwise. -/
+theorem crash_consistent_any_buffering_exact {α : Type} (env : Env α) (vs : List Value) (fl : List α)
+    (hgood : Good env 0 vs fl) (ops : List FOp) (hlog : opsLog ops = encList vs) (i n : Nat) :
+    ∃ k q, k ≤ vs.length ∧ (BFile.empty.runOps (ops.take i)).disk.take n = encList (vs.take k) ++ q ∧
+      (q = [] ∨ ∃ v w, vs[k]? = some v ∧ q ≠ [] ∧ w ≠ [] ∧ q ++ w = enc v) ∧
+      readAll env ((BFile.empty.runOps (ops.take i)).disk.take n) = (fl.take k, if q = [] then .clean else .flowRead) :=
+  prefix_yields_complete_records_only env vs fl hgood _
+    (List.IsPrefix.trans (List.take_prefix n _) (hlog ▸ disk_prefix ops i))
+
+/-- the exact form for every hook sequence -/
+theorem crash_prefix_every_hook_sequence_exact {α : Type} (env : Env α) (evs : List Event) (fl : List α)
+    (hgood : Good env 0 (written evs) fl) (ks : List Nat) (i n : Nat) :
+    ∃ k q, k ≤ (written evs).length ∧
+      (BFile.empty.runOps ((hookOps evs ks).take i)).disk.take n = encList ((written evs).take k) ++ q ∧
+      (q = [] ∨ ∃ v w, (written evs)[k]? = some v ∧ q ≠ [] ∧ w ≠ [] ∧ q ++ w = enc v) ∧
+      readAll env ((BFile.empty.runOps ((hookOps evs ks).take i)).disk.take n)
+        = (fl.take k, if q = [] then .clean else .flowRead) :=
+  crash_consistent_any_buffering_exact env (written evs) fl hgood (hookOps evs ks) (opsLog_streamOps _ _) i n
+
+/-- the exact form for an explicit save (`FlowWriter`, no flush before close) -/
+theorem explicit_save_crash_consistent_exact {α : Type} (env : Env α) (vs : List Value) (fl : List α)
+    (hgood : Good env 0 vs fl) (ks : List Nat) (i n : Nat) :
+    ∃ k q, k ≤ vs.length ∧ (BFile.empty.runOps ((explicitOps vs ks).take i)).disk.take n = encList (vs.take k) ++ q ∧
+      (q = [] ∨ ∃ v w, vs[k]? = some v ∧ q ≠ [] ∧ w ≠ [] ∧ q ++ w = enc v) ∧
+      readAll env ((BFile.empty.runOps ((explicitOps vs ks).take i)).disk.take n)
+        = (fl.take k, if q = [] then .clean else .flowRead) :=
+  crash_consistent_any_buffering_exact env vs fl hgood (explicitOps vs ks) (opsLog_explicitOps _ _) i n
+
 -- ------------------------------------------------------------------------------------------------
 -- the Save addon's hooks inside the model
 -- ------------------------------------------------------------------------------------------------
@@ -269,6 +300,17 @@ theorem addon_disk_complete_at_every_hook {α : Type} (env : Env α) (sv : Save)
     readAll env (BFile.empty.runOps (hookOps ((addonEvents sv ins).take j) ks)).disk
       = (fl.take (written ((addonEvents sv ins).take j)).length, .clean) :=
   stream_disk_complete_at_every_hook env (addonEvents sv ins) fl hgood ks j
+
+/-- the exact form for every history of the Save addon -/
+theorem crash_prefix_every_addon_history_exact {α : Type} (env : Env α) (sv : Save) (ins : List AddonIn) (fl : List α)
+    (hgood : Good env 0 (written (addonEvents sv ins)) fl) (ks : List Nat) (i n : Nat) :
+    ∃ k q, k ≤ (written (addonEvents sv ins)).length ∧
+      (BFile.empty.runOps ((hookOps (addonEvents sv ins) ks).take i)).disk.take n
+        = encList ((written (addonEvents sv ins)).take k) ++ q ∧
+      (q = [] ∨ ∃ v w, (written (addonEvents sv ins))[k]? = some v ∧ q ≠ [] ∧ w ≠ [] ∧ q ++ w = enc v) ∧
+      readAll env ((BFile.empty.runOps ((hookOps (addonEvents sv ins) ks).take i)).disk.take n)
+        = (fl.take k, if q = [] then .clean else .flowRead) :=
+  crash_prefix_every_hook_sequence_exact env (addonEvents sv ins) fl hgood ks i n
 
 -- ------------------------------------------------------------------------------------------------
 -- non-vacuity: a concrete two-record file, an environment for which `Good` holds, and what cuts of it read as
@@ -349,5 +391,17 @@ example : written (addonEvents Save.init [.start, .hook .request 1 false true st
       .hook .tcp_start 3 false true st2, .done [(3, true, st2)]]) = [st1, st2] ∧
     finishedStates false [.start, .hook .request 1 false true st2, .hook .response 1 false true st1,
       .hook .tcp_start 3 false true st2, .done [(3, true, st2)]] = [st1] := ⟨rfl, rfl⟩
+
+end MitmVerif.Props.C37
+
+-- owner round 6 (audit remark R1): the exact-k forms on the same run — after 3 file operations with 12 of the 14 bytes surviving,
+-- EXACTLY the first flow comes back and the read ends with FlowReadException; with 11 bytes (a record boundary) it ends cleanly
+namespace MitmVerif.Props.C37
+open MitmVerif MitmVerif.C36 MitmVerif.C37
+
+example : readAll env0 ((BFile.empty.runOps ((hookOps [.save st1, .noop, .save st2] [0, 3]).take 3)).disk.take 12) = ([0], .flowRead) ∧
+    readAll env0 ((BFile.empty.runOps ((hookOps [.save st1, .noop, .save st2] [0, 3]).take 3)).disk.take 11) = ([0], .clean) ∧
+    readAll env0 ((BFile.empty.runOps ((hookOps [.save st1, .noop, .save st2] [0, 3]).take 3)).disk.take 14) = ([0, 1], .clean) := by
+  decide +kernel
 
 end MitmVerif.Props.C37
